@@ -138,6 +138,27 @@ fn run(args: &[String]) -> String {
             };
             if r.is_zero() { "ok:inf".into() } else { format!("ok:{}", hex::encode(r.to_bytes_be())) }
         }
+        "sm2_key_forms" => {
+            // d (32 bytes hex) -> every textual / binary form of the key pair decoded again: "ok:<fields>" where each field is 1 (round trip
+            // returned the same key) or 0
+            let sk = match gm_sm2::key::Sm2PrivateKey::new(&h(&args[1])) {
+                Ok(p) => p,
+                Err(e) => return format!("err:sk:{}", e),
+            };
+            let pk = sk.public_key;
+            let mut out = vec![];
+            let hx = sk.to_hex_string();
+            out.push(format!("privhex_len={}", hx.len()));
+            out.push(format!("privhex_rt={}", match gm_sm2::key::Sm2PrivateKey::from_hex_string(&hx) { Ok(k) => (k.d == sk.d) as u8, Err(_) => 0 }));
+            out.push(format!("privbytes_rt={}", match gm_sm2::key::Sm2PrivateKey::new(&sk.to_bytes_be()) { Ok(k) => (k.d == sk.d) as u8, Err(_) => 0 }));
+            for c in [false, true] {
+                let hx = pk.to_hex_string(c);
+                out.push(format!("pubhex{}_len={}", c as u8, hx.len()));
+                out.push(format!("pubhex{}_rt={}", c as u8, match gm_sm2::key::Sm2PublicKey::from_hex_string(&hx) { Ok(k) => (k.to_bytes(false) == pk.to_bytes(false)) as u8, Err(_) => 0 }));
+                out.push(format!("pubbytes{}_rt={}", c as u8, match gm_sm2::key::Sm2PublicKey::new(&pk.to_bytes(c)) { Ok(k) => (k.to_bytes(false) == pk.to_bytes(false)) as u8, Err(_) => 0 }));
+            }
+            format!("ok:{}", out.join(","))
+        }
         "sm9_mod_n_mul" => {
             let a = gm_sm9::u256::u256_from_be_bytes(&h(&args[1]));
             let b = gm_sm9::u256::u256_from_be_bytes(&h(&args[2]));
